@@ -22,23 +22,27 @@ def J(harness, runs, crate="sim", **kw):
 
 PLAN = {
     "C01": {"quick": [J("udp_store", 40000)], "thorough": [J("udp_store", 3000000), J("udp_sys", 50000)]},
-    "C03": {"quick": [J("udp_sys", 1600), J("udp_store", 15000), J("http_store", 15000)],
-            "thorough": [J("udp_sys", 50000), J("udp_store", 500000), J("http_store", 500000)]},
+    "C03": {"quick": [J("udp_sys", 1600), J("http_sys", 3000), J("ws_sys", 2000), J("udp_store", 15000), J("http_store", 15000)],
+            "thorough": [J("udp_sys", 50000), J("http_sys", 100000), J("ws_sys", 60000), J("udp_store", 500000), J("http_store", 500000)]},
     "C06": {"quick": [J("udp_sys", 3200)], "thorough": [J("udp_sys", 100000)]},
-    "C12": {"quick": [J("udp_sys", 2400)], "thorough": [J("udp_sys", 50000)]},
-    "C18": {"quick": [J("udp_sys", 480)], "thorough": [J("udp_sys", 10000)]},
-    "C19": {"quick": [J("udp_sys", 2400)], "thorough": [J("udp_sys", 60000)]},
+    "C12": {"quick": [J("udp_sys", 2400), J("http_sys", 4000), J("ws_sys", 2500)], "thorough": [J("udp_sys", 50000), J("http_sys", 100000), J("ws_sys", 60000)]},
+    "C16": {"quick": [J("http_sys", 8000)], "thorough": [J("http_sys", 300000)]},
+    "C17": {"quick": [J("ws_sys", 5000)], "thorough": [J("ws_sys", 150000)]},
+    "C18": {"quick": [J("udp_sys", 480), J("http_sys", 640)], "thorough": [J("udp_sys", 10000), J("http_sys", 10000)]},
+    "C19": {"quick": [J("udp_sys", 2400), J("http_sys", 3000), J("ws_sys", 2500)], "thorough": [J("udp_sys", 60000), J("http_sys", 60000), J("ws_sys", 60000)]},
     "C02": {"quick": [J("udp_store", 12000), J("http_store", 30000), J("ws_store", 60000)],
             "thorough": [J("udp_store", 500000), J("http_store", 1500000), J("ws_store", 2000000)]},
     "C04": {"quick": [J("udp_conc", 320, crate="conc")], "thorough": [J("udp_conc", 4000, crate="conc")]},
-    "C05": {"quick": [J("validator", 400000)], "thorough": [J("validator", 10000000), J("udp_sys", 50000)]},
-    "C07": {"quick": [J("http_store", 60000)], "thorough": [J("http_store", 3000000)]},
-    "C08": {"quick": [J("ws_store", 150000)], "thorough": [J("ws_store", 3000000)]},
-    "C09": {"quick": [J("ws_store", 150000)], "thorough": [J("ws_store", 3000000)]},
+    "C05": {"quick": [J("validator", 400000), J("udp_sys", 800)], "thorough": [J("validator", 10000000), J("udp_sys", 50000)]},
+    "C07": {"quick": [J("http_store", 60000)], "thorough": [J("http_store", 3000000), J("http_sys", 60000)]},
+    "C08": {"quick": [J("ws_store", 150000)], "thorough": [J("ws_store", 3000000), J("ws_sys", 60000)]},
+    "C09": {"quick": [J("ws_store", 150000)], "thorough": [J("ws_store", 3000000), J("ws_sys", 60000)]},
     "C10": {"quick": [J("udp_store", 25000), J("http_store", 40000), J("ws_store", 80000)],
             "thorough": [J("udp_store", 1000000), J("http_store", 1000000), J("ws_store", 1000000)]},
-    "C11": {"quick": [J("accesslist", 4000), J("udp_sys", 1200)], "thorough": [J("accesslist", 200000), J("udp_sys", 30000)]},
-    "C20": {"quick": [J("udp_store", 30000), J("udp_sys", 1200)], "thorough": [J("udp_store", 1000000), J("udp_sys", 30000)]},
+    "C11": {"quick": [J("accesslist", 4000), J("udp_sys", 1200), J("http_sys", 2000), J("ws_sys", 1500)],
+            "thorough": [J("accesslist", 200000), J("udp_sys", 30000), J("http_sys", 30000), J("ws_sys", 30000)]},
+    "C20": {"quick": [J("udp_store", 30000), J("udp_sys", 1200), J("export_crash", 12000)],
+            "thorough": [J("udp_store", 1000000), J("udp_sys", 30000), J("export_crash", 400000)]},
 }
 
 _STORE_RULE = ("one run = one generated history (announce / scrape / clean / advance-clock operations, config knobs and RNG seed "
@@ -87,6 +91,26 @@ PROPS = {
     "C12": {"level": "exploration", "rule": _SYS_RULE + "; here every client datagram may be truncated, extended, bit-flipped, replaced or spoofed in flight",
             "expect_probes": ["malformed-request", "garbage-datagram", "spoofed-source"],
             "assumptions": ["sampled, fault-driven input corruption only - not a substitute for coverage-guided fuzzing of the parsers (weakest claim)", "harness built with overflow checks on; any panic of a tracker thread is a violation"]},
+    "C16": {"level": "exploration",
+            "rule": ("one run = one generated scenario (1-3 socket x 1-3 swarm workers, listener layout, keep-alive on/off, reverse-proxy mode, limits, 2-6 "
+                     "client connections issuing announces / scrapes cut into TCP segments at arbitrary bytes (also inside the final CRLFCRLF), malformed and "
+                     "oversized requests, mid-request resets, tracker-side short writes, tiny socket buffers with slow readers, access-list reloads) "
+                     "executed by running aquatic_http::run(config) over the glommio stand-in in the engine; evaluations = request/reply exchanges judged "
+                     "by the independent HTTP/1.1 + bencode reader; per torrent the client-observed history must be linearizable against one reference "
+                     "tracker; non-trivial = at least three complete replies; distinct = distinct schedule signatures (sequence of (thread, seam kind))"),
+            "expect_probes": ["torrent-history-checked", "overlapping-requests-on-one-torrent", "exchange-excused-by-injected-fault"],
+            "assumptions": ["glommio is replaced by shims/glommio (arbitrary task order, FIFO channels, no cross-channel order): a violation that needs a behaviour real glommio cannot produce would be a false alarm; stub semantics are transcribed from glommio 0.9.0 (DESIGN 2.2)",
+                            "TLS and metrics features off", "torrents touched by a reset request or by a reload in progress are not judged"]},
+    "C17": {"level": "exploration",
+            "rule": ("one run = one generated scenario (1-3 socket x 1-3 swarm workers, IPv4 / IPv6 / dual-stack listener, 2-6 tungstenite WebSocket clients that announce "
+                     "with offers, answer received offers, send bogus answers, reuse other connections' peer ids, announce a second peer id, scrape over several "
+                     "swarm workers, send malformed messages, close with a close frame or reset abruptly - also immediately after an announce) executed by "
+                     "running aquatic_ws::run(config) over the glommio stand-in; evaluations = client-side protocol events judged; at quiescence two observer "
+                     "connections scrape every torrent and the result must equal the peers of the connections still open; non-trivial = at least three replies; "
+                     "distinct = distinct schedule signatures"),
+            "expect_probes": ["offers-and-answers-relayed", "answer-relayed", "final-scrape-entry-judged", "second-peer-id-connection-ended", "connection-ended-before-quiescence"],
+            "assumptions": ["glommio stand-in as for C16", "peer ids used by more than one connection on a torrent make that torrent's outcome order-dependent: it is not judged",
+                            "real tungstenite handshake and framing on both sides"]},
     "C18": {"level": "exploration", "rule": _SYS_RULE + "; here limits are drawn from {1,30,112,113,170,454,455,1000} x {1,70,170,255} and the workload builds the worst accepted case (swarm > limit, numwant = limit, 255-hash scrape)",
             "expect_probes": ["scrape-longer-than-limit"],
             "assumptions": ["mio backend's 8192-byte buffer only", "HTTP part pending HTTP-SYS"]},
@@ -152,6 +176,12 @@ TEXT = {
     "C12": {"engine": "sim", "design_ref": "6.C12", "technique": _SIM + " (in-flight corruption of client datagrams; panic / overflow monitors)",
             "level_text": "Seeded exploration with network-driven corruption (truncate, extend, bit flip, replace, spoof) of every datagram kind against the running tracker; any tracker-thread panic or arithmetic overflow is a violation. Weakest claim: only the fault-driven part of the input space.",
             "level_note": "Not a parser fuzzer; overflow-checks = on in the harness profile."},
+    "C16": {"engine": "sim", "design_ref": "6.C16", "technique": _SIM + " (whole HTTP tracker over a glommio stand-in; framing model + per-torrent linearizability of client-observed histories)",
+            "level_text": "Seeded exploration of the real aquatic_http::run over the stub executor: every reply is read by an independent framing model (status line, Content-Length, complete bencode + CRLF, nothing unsolicited), must arrive within a bound, and the replies of each torrent must be explainable by one reference tracker whatever the worker counts.",
+            "level_note": "Executor, channels, timers and TCP are the simulator's; connection, request, swarm-worker and watchdog code is real."},
+    "C17": {"engine": "sim", "design_ref": "6.C17", "technique": _SIM + " (whole WebTorrent tracker over a glommio stand-in; routing oracle + quiescent scrape)",
+            "level_text": "Seeded exploration of the real aquatic_ws::run: offers and answers carry unique SDP strings so that every delivery is attributed; each must reach exactly the connection owning the addressed peer; request/reply pairing per connection; after closes and quiescence the scrape must show exactly the peers of the open connections.",
+            "level_note": "The close-overtakes-last-announce race is a recorded finding with its own signature; any other surviving entry is a violation."},
     "C18": {"engine": "sim", "design_ref": "6.C18", "technique": _SIM + " (limit knobs x worst-case accepted request)",
             "level_text": "Seeded exploration over the configuration limits with worst-case workloads: a well-formed request with a valid id that gets no reply (dropped because the reply does not fit the buffer) is a violation.",
             "level_note": "mio backend; io_uring buffers are not exercised."},
